@@ -163,6 +163,9 @@ func (n *ambassador) callback(tx dag.Transaction, payload []byte) error {
 
 	// Unmarshal the next/new proposed version of the DID Document
 	var nextDIDDocument did.Document
+	if err := resolver.RejectNullKeyEntries(payload); err != nil {
+		return fmt.Errorf("unable to unmarshal DID document from network payload: %w", err)
+	}
 	if err := json.Unmarshal(payload, &nextDIDDocument); err != nil {
 		return fmt.Errorf("unable to unmarshal DID document from network payload: %w", err)
 	}
